@@ -9,8 +9,13 @@ all six facts constructed by the harness; every decision-table row also through 
 and the real `process_resource_causes` (finalizer cycles: `invocableRC`) with handlers built by the real decorators
 and sub-handlers made in kopf's four ways (a sub-handler runs iff its parent does: /repo 17e5c42); closed-loop
 histories (`gen_histories`: configured names, foreign finalizers, run-time restored objects, creations while down,
-re-listings before the first handling ends, gaps of the watch next to daemons/timers). White-box review:
-review/wb/C05/NOTES.md.
+re-listings before the first handling ends, gaps of the watch next to daemons/timers).
+The fourth fact ("never handled") also comes from its REAL producer, the configured diff-base storage's `fetch` (`_records`,
+`gen_owned`): objects of every kind x owners placement (a Deployment's ReplicaSets store under names marked "-ofDRS") with
+records of their own and FOREIGN records (the owner's propagated ones, left-overs under the marked names, other operators'
+prefixes, the other kind of storage) under kopf's default storage, configured prefixes, the status storage and a
+multi-storage; modelled in Model/C05_Record.lean (`markKey`, `fetchAnn`, `fetchMulti`), tied through `C05.fetch`.
+White-box review: review/wb/C05/NOTES.md.
 """
 from __future__ import annotations
 
@@ -27,7 +32,8 @@ LEVEL = "proof"
 STRENGTH = "full"
 ENGINES = ["lean-model", "pyextract", "purediff", "kopfsim"]
 LEVEL_TEXT = ("Lean theorems (all inputs of the decision table, all handler kinds) about a model that is regenerated from the AST and re-proved equal on every run; the real _detect_causes and get_handlers are additionally enumerated exhaustively against the model and an independent oracle.")
-TIE = "T (AST → Lean, re-proved equal to the model) + D exhaustive over the decision table, also through process_resource_causes"
+TIE = ("T (AST → Lean, re-proved equal to the model) + D exhaustive over the decision table, also through process_resource_causes; "
+       "D for whose record it is (storage.fetch inside _detect_causes vs. C05.fetch)")
 THEOREMS = [
     ("Kopf.Props.C05", "Kopf.C05.detect_spec"),
     ("Kopf.Props.C05", "Kopf.C05.exactly_one"),
@@ -59,6 +65,15 @@ THEOREMS = [
     ("Kopf.Props.C05", "Kopf.C05.rc_delete_needs_requirement"),
     ("Kopf.Props.C05", "Kopf.C05.rc_nothing_before_the_finalizer"),
     ("Kopf.Props.C05", "Kopf.C05.rc_eq_outside_finalizer_cycles"),
+    # whose record is it: "never handled" = no record of the object's OWN under the configured storage
+    ("Kopf.Props.C05", "Kopf.C05.fetch_reads_own_record_only"),
+    ("Kopf.Props.C05", "Kopf.C05.never_handled_iff_no_own_record"),
+    ("Kopf.Props.C05", "Kopf.C05.fetched_is_own_record"),
+    ("Kopf.Props.C05", "Kopf.C05.never_handled_is_creation"),
+    ("Kopf.Props.C05", "Kopf.C05.handled_is_not_creation"),
+    ("Kopf.Props.C05", "Kopf.C05.fallback_agrees_off_DRS"),
+    ("Kopf.Props.C05", "Kopf.C05.fallback_agrees_when_handled"),
+    ("Kopf.Props.C05", "Kopf.C05.fallback_witness"),
 ]
 TIE_THEOREMS = [
     ("Kopf.Tie.C05", "Kopf.C05.Tie.detect_eq"),
@@ -81,10 +96,24 @@ RULE = ("exhaustive: finalizer setting (kopf's default name / a configured one) 
         "histories incl. deletion handlers with sub-handlers, configured finalizer names, foreign finalizers (objects lingering "
         "released), objects appearing at run time with a stored state, objects created while the operator is down, re-listings "
         "before the first handling ends, changes inside a gap of the watch, daemons/timers next to the change handlers; "
+        "whose record: 5 diff-base storages (default, configured prefix, long prefix with two key forms, status, multi) x 12 "
+        "kind/owners placements (Deployment-owned ReplicaSets and look-alikes) x own record (absent / equal / differing; in all "
+        "own slots or the last only) x foreign records (none / counterpart name / counterpart with the object's own content / "
+        "elsewhere / all) x deletion mark x first sight through the real storage.fetch in _detect_causes + process_changing_cause "
+        "with decorated create/update/resume handlers; closed-loop histories of owned objects (roll-out, listed, created while "
+        "down, propagation arriving later, adoption, orphaning); "
         "a case is non-trivial when it is a distinct (input, output) pair")
 TRUSTED = ["pyextract atom vocabulary for causes.detect_changing_cause / ChangingRegistry.iter_handlers",
-           "the six booleans are read off real bodies by kopf's own finalizers/diffbase code (exercised, not modelled, here)"]
+           "the six booleans are read off real bodies by kopf's own finalizers/diffbase code (exercised here; of the diff-base "
+           "storages the choice of the object's own names and the fetch are modelled, the forming of a name into annotation keys "
+           "(prefix, V1/V2 forms, cuts, hashes: `make_keys` without a body) is taken from the real code in model and oracle alike)"]
 ASSUMPTIONS = ["filters (`match`) are C15's subject and appear here as an opaque boolean",
+               "'never handled' = the object carries no last-handled record OF ITS OWN under the configured storage; which names are "
+               "an object's own is read from the text of kopf's convention (conventions.CollisionEvadingConvention): the names marked "
+               "'-ofDRS' for a ReplicaSet with a Deployment among its owners, the plain names for every other object — so the "
+               "own names change when such a ReplicaSet is adopted or orphaned (by this definition an adopted, formerly standalone "
+               "ReplicaSet is a creation again; unchanged kopf does that); closed-loop objects get their kind/ownerReferences from "
+               "the scenario body on the simulated kopfexamples resource (the convention reads nothing else of the object)",
                "reading of 'creation/update handlers': on.create/on.update handlers AND on.field handlers (no cause kind, "
                "not resuming, field_needs_change=True; "
                "docs/handlers.rst: 'there is no special detection of the causes for the fields, such as create/update/delete, "
@@ -323,6 +352,213 @@ def settings_variants(configuration: Any) -> list[tuple[str, Any]]:
     if default.persistence.finalizer == CUSTOM_OWN:
         raise RuntimeError("the configured finalizer name must differ from the default one")
     return [("default", default), ("configured", custom)]
+
+
+# ---------------------------------------------------------------------------------------------
+# Whose record is it. "Never handled" = the object carries no last-handled record OF ITS OWN. Which names are the
+# object's own is kopf's documented convention (conventions.CollisionEvadingConvention, the text): Kubernetes copies
+# a Deployment's annotations — Kopf's records of the DEPLOYMENT among them — down to its ReplicaSets, so the records
+# of a ReplicaSet owned by a Deployment go under names marked "-ofDRS"; every other object goes by the plain names.
+RECORD = "last-handled-configuration"
+MARK = "-ofDRS"
+PLACEMENTS: list[tuple[str, list[str] | None]] = [      # (kind, kinds of the owners | None: no ownerReferences at all)
+    ("KopfExample", None), ("KopfExample", ["Deployment"]), ("ReplicaSet", None), ("ReplicaSet", []),
+    ("ReplicaSet", ["Deployment"]), ("ReplicaSet", ["StatefulSet"]), ("ReplicaSet", ["StatefulSet", "Deployment"]),
+    ("ReplicaSet", ["Deployment", "StatefulSet"]), ("ReplicaSet", ["deployment"]), ("replicaset", ["Deployment"]),
+    ("Deployment", ["Deployment"]), ("StatefulSet", ["ReplicaSet"]),
+]
+FOREIGN = ["none", "counterpart", "counterpart-same", "elsewhere", "all"]
+OTHER_PREFIX = "other.example.com"
+LONG_PREFIX = "verif." + "x" * 30 + ".example.com"      # long enough for kopf's two forms of a key (V1/V2) to differ
+
+
+def own_marked(kind: Any, owner_kinds: list | None) -> bool:
+    """The convention, read from its text: a ReplicaSet with a Deployment among its owners."""
+    return kind == "ReplicaSet" and "Deployment" in (owner_kinds or [])
+
+
+def owner_kinds_of(body: dict) -> list:
+    return [o.get("kind") for o in (body.get("metadata", {}).get("ownerReferences") or [])]
+
+
+def own_record_name(body: dict, prefix: str = "kopf.zalando.org") -> str:
+    """The annotation that holds the object's own last-handled record under kopf's default storage."""
+    return f"{prefix}/{RECORD}{MARK if own_marked(body.get('kind'), owner_kinds_of(body)) else ''}"
+
+
+def storage_variants(diffbase: Any) -> list[tuple[str, Any, list]]:
+    """(name, storage, its simple parts): kopf's default, configured prefixes (a long one: two key forms), the status
+    storage, and a multi-storage of both."""
+    ann, status = diffbase.AnnotationsDiffBaseStorage, diffbase.StatusDiffBaseStorage
+    a, p, l, st, ma, ms = ann(), ann(prefix="verif.example.com"), ann(prefix=LONG_PREFIX), status(), ann(), status()
+    return [("default", a, [a]), ("prefixed", p, [p]), ("long-prefix", l, [l]), ("status", st, [st]),
+            ("multi", diffbase.MultiDiffBaseStorage([ma, ms]), [ma, ms])]
+
+
+def record_body(parts: list, placement: tuple, marked: bool, blocked: bool, old_absent: bool, diff: bool,
+                foreign: str, own_slots: str, fin: str) -> tuple[dict, list, list]:
+    """An object of the given kind/owners with its own record (unless `old_absent`; equal to its state unless `diff`)
+    in the slots that are its own under the storage, and FOREIGN records in slots that are not: the counterpart
+    names (plain for a Deployment's ReplicaSet: what the Deployment's operator stored, propagated; marked for all
+    others: a left-over), other operators' prefixes, the other kind of storage. → (body, own slots, foreign slots)."""
+    import json
+    kind, owners = placement
+    meta: dict[str, Any] = {"name": "obj", "namespace": "ns", "uid": "u1", "resourceVersion": "5",
+                            "labels": {"app": "web"}}
+    if owners is not None:
+        meta["ownerReferences"] = [{"apiVersion": "apps/v1", "kind": k, "name": f"o{n}", "uid": f"ou{n}",
+                                    "controller": n == 0} for n, k in enumerate(owners)]
+    body: dict[str, Any] = {"apiVersion": "kopf.dev/v1", "kind": kind, "metadata": meta,
+                            "spec": {"field": "new" if diff and not old_absent else "same", "replicas": 3}}
+    if blocked:
+        meta["finalizers"] = [fin]
+    if marked:
+        meta["deletionTimestamp"] = "2020-01-01T00:00:00Z"
+    own_essence = {"metadata": {"labels": {"app": "web"}}, "spec": {"field": "same", "replicas": 3}}
+    owners_essence = {"metadata": {"labels": {"app": "web"}},
+                      "spec": {"replicas": 3, "strategy": {"type": "RollingUpdate"}, "template": {"spec": {}}}}
+    is_marked = own_marked(kind, owners)
+    ann = meta.setdefault("annotations", {})
+    own: list = []
+    foreign_slots: dict[str, list] = {"counterpart": [], "elsewhere": []}
+    has_ann = False
+    for part in parts:
+        if hasattr(part, "make_keys"):
+            has_ann = True
+            plain, mark = list(part.make_keys(RECORD)), list(part.make_keys(RECORD + MARK))
+            own += [("ann", k) for k in (mark if is_marked else plain)]
+            foreign_slots["counterpart"] += [("ann", k) for k in (plain if is_marked else mark)]
+            if part.prefix != "kopf.zalando.org":     # what kopf's `store` leaves next to its records
+                ann[f"{part.prefix}/kopf-managed"] = "yes"
+        else:
+            own.append(("status", None))
+    prefixes = {getattr(part, "prefix", None) for part in parts}
+    for prefix in ["kopf.zalando.org", OTHER_PREFIX]:
+        if prefix not in prefixes:
+            foreign_slots["elsewhere" if has_ann else "counterpart"] += [("ann", f"{prefix}/{RECORD}"), ("ann", f"{prefix}/{RECORD}{MARK}")]
+    if ("status", None) not in own:
+        foreign_slots["elsewhere"].append(("status", None))
+
+    def put(slot: tuple, essence: dict) -> None:
+        if slot[0] == "status":
+            body.setdefault("status", {}).setdefault("kopf", {})[RECORD] = json.dumps(essence, separators=(",", ":"))
+        else:
+            ann[slot[1]] = json.dumps(essence, separators=(",", ":")) + "\n"
+            if slot[1].startswith(OTHER_PREFIX):
+                ann[f"{OTHER_PREFIX}/kopf-managed"] = "yes"
+    used_foreign: list = []
+    if foreign != "none":
+        for group, slots in foreign_slots.items():
+            if foreign == "all" or foreign.startswith(group):
+                for slot in slots:
+                    put(slot, own_essence if foreign == "counterpart-same" else owners_essence)
+                    used_foreign.append(slot)
+    used_own = [] if old_absent else own[-1:] if own_slots == "last-only" else own
+    for slot in used_own:
+        put(slot, own_essence)
+    return body, used_own, used_foreign
+
+
+async def _records(ctx: Ctx, env: dict, resource: Any, logger: Any) -> None:
+    """The fourth fact from its REAL producer: real bodies of every placement (kind x owners) with own and foreign
+    records through the configured storage's `fetch` inside the real `_detect_causes`, then the real
+    `process_changing_cause` with creation/update/resume handlers built by the real decorators. Oracle, from the
+    statement: the cause is the precedence list's with 'never handled' = no record of the object's own; for a never
+    handled unmarked object the creation handler runs and the update/resume handlers do not (and the other way round
+    for a handled one). Tie: the storage's answer and the cause vs. the model (`C05.fetch`)."""
+    import json
+    import kopf
+    from kopf._cogs.configs import diffbase
+    from kopf._core.actions import lifecycles
+    configuration, registries, processing, inventory = env["configuration"], env["registries"], env["processing"], env["inventory"]
+    indexing, bodies, patches = env["indexing"], env["bodies"], env["patches"]
+    called: list[str] = []
+    registry = registries.OperatorRegistry()
+    for hid, deco in (("c", kopf.on.create), ("u", kopf.on.update), ("r", kopf.on.resume)):
+        def fn(hid: str = hid, **_: Any) -> None:
+            called.append(hid)
+        fn.__name__ = fn.__qualname__ = hid
+        deco("kopfexamples", id=hid, registry=registry)(fn)
+    indexers = indexing.OperatorIndexers()
+    tags: dict[str, int] = {}
+
+    def tag(text: Any, decoded: bool = False) -> int | None:
+        """A number per distinct record content (`null` for a text that is JSON null)."""
+        try:
+            val = text if decoded else json.loads(text)
+            canon = json.dumps(val, sort_keys=True)
+        except ValueError:
+            canon = "text:" + str(text)
+        return None if canon == "null" else tags.setdefault(canon, len(tags) + 1)
+
+    reqs, impls, inps = [], [], []
+    for sname, storage, parts in storage_variants(diffbase):
+        stg = configuration.OperatorSettings()
+        stg.persistence.diffbase_storage = storage
+        fin = stg.persistence.finalizer
+        sspec = [["ann", RECORD, list(p.make_keys(RECORD)), list(p.make_keys(RECORD + MARK))] if hasattr(p, "make_keys")
+                 else ["status"] for p in parts]
+        multi_slot = len(parts) > 1 or any(len(x[2]) > 1 for x in sspec if x[0] == "ann")
+        for placement, foreign, own_slots, (marked, blocked), (old_absent, diff), noticed in itertools.product(
+                PLACEMENTS, FOREIGN, ["all", "last-only"] if multi_slot else ["all"],
+                [(False, False), (False, True), (True, True)], [(True, False), (False, False), (False, True)], [False, True]):
+            if own_slots == "last-only" and old_absent:
+                continue
+            body, used_own, used_foreign = record_body(parts, placement, marked, blocked, old_absent, diff, foreign, own_slots, fin)
+            ev_type = None if noticed else "MODIFIED"
+            memory = inventory.ResourceMemory(noticed_by_listing=noticed)
+            del called[:]
+            cs = processing._detect_causes(indexers=indexers, registry=registry, settings=stg, resource=resource,
+                                           raw_event={"type": ev_type, "object": body}, body=bodies.Body(body),
+                                           patch=patches.Patch(), memory=memory, local_logger=logger, event_logger=logger)
+            cause = cs.changing_cause
+            await processing.process_changing_cause(lifecycle=lifecycles.all_at_once, registry=registry, settings=stg,
+                                                    memory=memory, cause=cause)
+            ran = sorted(called)
+            six = [False, marked, blocked, old_absent, diff and not old_absent, noticed]
+            want = oracle_reason(*six)
+            got = cause.reason.value
+            pl = f"{placement[0]}<-{'+'.join(placement[1]) if placement[1] else ('[]' if placement[1] is not None else '-')}"
+            ctx.case(key={"rec": [sname, pl, foreign, own_slots, six, got, ran]}, nontrivial=True,
+                     sample={"storage": sname, "object": pl, "foreign_records": foreign, "six": six, "reason": got, "ran": ran}
+                     if foreign == "counterpart" and old_absent and not marked and sname == "default" else None)
+            ctx.count("record_input", f"storage={sname}:own={'absent' if old_absent else own_slots}:foreign={foreign}")
+            ctx.count("record_object", f"{pl}:{'marked-names' if own_marked(*placement) else 'plain-names'}")
+            ctx.count("record_reason", got)
+            rep = {"six": six, "event_type": ev_type, "body": body, "storage": sname, "own_record_in": used_own,
+                   "foreign_records_in": used_foreign, "impl": {"reason": got, "ran": ran}}
+            whose = (f"{'no' if old_absent else 'a'} record of its own, "
+                     f"{'foreign records in ' + ', '.join(str(s[1] or 'status') for s in used_foreign) if used_foreign else 'no foreign records'}")
+            if got != want:
+                ctx.oracle_fail(f"an object with {whose} is classified as {got}, the property's precedence gives {want}", rep,
+                                {"site": "diffbase_storage.fetch", "shape": "whose record", "want": want, "got": got})
+            expect = {"create": ["c"], "update": ["u"], "resume": ["r"]}.get(want, [])
+            if want == "update" and noticed:
+                expect = ["r", "u"]
+            if ran != expect:
+                ctx.oracle_fail(f"for an object with {whose} ({want} by the precedence list) the handlers {ran} ran, "
+                                f"{expect} are the ones to run", rep,
+                                {"site": "diffbase_storage.fetch", "shape": "handlers for whose record", "want": want})
+            old = storage.fetch(body=bodies.Body(body))
+            annotations = body["metadata"].get("annotations", {})
+            raw_status = body.get("status", {}).get("kopf", {}).get(RECORD)
+            reqs.append(["C05.fetch", {"kind": placement[0], "owners": placement[1] or [],
+                                       "annotations": [[k, tag(v)] for k, v in annotations.items()],
+                                       "status": tag(raw_status) if raw_status is not None else None},
+                         sspec, [False, marked, blocked, diff, noticed]])
+            ann_parts = [p for p in parts if hasattr(p, "mark_key")]      # (the status storage marks nothing)
+            impls.append({"old": None if old is None else tag(old, decoded=True), "reason": got, "initial": bool(cause.initial),
+                          "is_drs": any(p.mark_key(RECORD, body=bodies.Body(body)) != RECORD for p in ann_parts)
+                          if ann_parts else own_marked(*placement)})
+            inps.append({"storage": sname, "object": pl, "foreign": foreign, "own_slots": own_slots, "six": six, "body": body})
+    try:
+        outs = ctx.driver.ask(reqs)
+    except leanio.LeanError as e:
+        ctx.tie_fail(f"Lean driver failed: {e}", {"log": e.log})
+        return
+    for inp, impl, out in zip(inps, impls, outs):
+        ctx.compare("C05 whose record", impl, out[1] if out and out[0] == "ok" else out, inp)
+    ctx.traces += len(reqs)
 
 
 def run(ctx: Ctx) -> None:
@@ -686,6 +922,9 @@ async def _run(ctx: Ctx) -> None:
     ctx.exhaustive = True
     ctx.traces = len(requests) + len(greqs)
 
+    # ---- part 4: whose record is it — the fourth fact from the real storages -----------------------
+    await _records(ctx, env, resource, logger)
+
 
 def _essence(body: dict) -> dict:
     """Independent reading of the essence for default settings: everything but status, system metadata and
@@ -718,6 +957,7 @@ def closed_loop(ctx: Ctx) -> None:
     scenarios += [gen_field_delete(ctx.rng, 33_000_000 + ctx.seed * 100000 + i) for i in range(max(12, n // 3))]
     scenarios += [gen_sub_delete(ctx.rng, 34_000_000 + ctx.seed * 100000 + i) for i in range(max(16, n // 3))]
     scenarios += [gen_histories(ctx.rng, 35_000_000 + ctx.seed * 100000 + i) for i in range(max(48, n // 2))]
+    scenarios += [gen_owned(ctx.rng, 36_000_000 + ctx.seed * 100000 + i) for i in range(max(32, n // 3))]
     corpus = [d["scenario"] for _, d in __import__("harness.core", fromlist=["load_corpus"]).load_corpus("C05")
               if d.get("kind") == "scenario"]
     scenarios = corpus + scenarios     # corpus first
@@ -736,6 +976,7 @@ def judge(ctx: Any, sc: dict, tr: dict) -> None:
         _call_clauses(ctx, sc, tr)
         _sub_clauses(ctx, sc, tr)
         _body_clauses(ctx, sc, tr)
+        _record_clauses(ctx, sc, tr)
         own = own_of(sc)
         ctx.count("closed_loop_finalizer_setting", "default" if own == DEFAULT_OWN else "configured")
         ctx.count("closed_loop_generator", str(sc.get("c05", "c14/c02")))
@@ -751,7 +992,7 @@ def judge(ctx: Any, sc: dict, tr: dict) -> None:
             marked = bool(meta.get("deletionTimestamp"))
             blocked = own in (meta.get("finalizers") or [])
             foreign = [f for f in (meta.get("finalizers") or []) if f != own]
-            raw = (meta.get("annotations") or {}).get("kopf.zalando.org/last-handled-configuration")
+            raw = (meta.get("annotations") or {}).get(own_record_name(cyc["body"]))   # the object's OWN record
             old_absent = raw is None
             try:
                 diff = (not old_absent) and _json.loads(raw) != _essence(cyc["body"])
@@ -762,6 +1003,10 @@ def judge(ctx: Any, sc: dict, tr: dict) -> None:
             got = cause["reason"]
             ctx.case(key={"loop": [cyc["event_type"] is None, marked, blocked, old_absent, diff, initial, got]}, nontrivial=True)
             ctx.count("closed_loop_reason", got)
+            others = sorted(k.split("/", 1)[1] for k in (meta.get("annotations") or {})
+                            if k.startswith("kopf.zalando.org/" + RECORD) and k != own_record_name(cyc["body"]))
+            ctx.count("closed_loop_record", f"{cyc['body'].get('kind')}<-{'+'.join(map(str, owner_kinds_of(cyc['body']))) or '-'}:"
+                                            f"own={'absent' if old_absent else 'present'}:foreign={'+'.join(others) or 'none'}")
             ctx.count("closed_loop_input", f"{'marked' if marked else 'unmarked'}:{'held' if blocked else 'not-held'}:"
                                            f"{'foreign-finalizers' if foreign else 'no-foreign'}:"
                                            f"{'listed' if cyc['event_type'] is None else cyc['event_type']}:"
@@ -954,6 +1199,82 @@ def gen_histories(rng: Any, i: int) -> dict:
     return sc
 
 
+def gen_owned(rng: Any, i: int) -> dict:
+    """Objects whose own record names differ from the plain ones, and objects carrying records that are not theirs:
+    ReplicaSets owned by Deployments (next to standalone ones, ones of other owners, other kinds owned by Deployments)
+    with the Deployment's propagated last-handled record under the plain name — or, for the others, a left-over record
+    under the marked name. They are born in a roll-out while the operator runs, exist before it starts, are created
+    while it is down; the propagated record arrives later (the Deployment's operator starts later); a standalone
+    ReplicaSet is adopted by a Deployment, a Deployment's ReplicaSet is orphaned (its own names change with that)."""
+    import json
+    kind, owners = rng.choice([("ReplicaSet", ["Deployment"])] * 6 + [("ReplicaSet", ["StatefulSet", "Deployment"])] +
+                              [p for p in PLACEMENTS if p[0] != "replicaset"])
+    marked_names = own_marked(kind, owners)
+    spec = {"x": 0, "y": 0}
+    essence_of_owner = {"spec": {"x": 0, "replicas": 3, "strategy": {"type": "RollingUpdate"}}, "metadata": {"labels": {"l": "1"}}}
+    essence_same = {"spec": spec, "metadata": {"labels": {"l": "1"}, "annotations": {"deployment.kubernetes.io/revision": "1"}}}
+    foreign_name = f"kopf.zalando.org/{RECORD}{'' if marked_names else MARK}"
+    foreign_text = json.dumps(rng.choice([essence_of_owner, essence_of_owner, essence_same]), separators=(",", ":")) + "\n"
+    refs = None if owners is None else [{"apiVersion": "apps/v1", "kind": k, "name": f"o{n}", "uid": f"ou{n}", "controller": n == 0}
+                                        for n, k in enumerate(owners)]
+
+    def body(foreign: bool, with_refs: bool = True) -> dict:
+        meta: dict[str, Any] = {"labels": {"l": "1"}, "annotations": {"deployment.kubernetes.io/revision": "1"}}
+        if foreign:
+            meta["annotations"][foreign_name] = foreign_text
+        if with_refs and refs is not None:
+            meta["ownerReferences"] = refs
+        return {"kind": kind, "spec": dict(spec), "metadata": meta}
+
+    mk_script = lambda: [rng.choice(["ok", "ok", "ok", ["temp", 1.0], ["sleep", 0.5, "ok"]])]   # noqa: E731
+    handlers: list[dict] = [{"kind": "create", "id": "c0", "script": mk_script(), "default": "ok"},
+                            {"kind": "update", "id": "u0", "script": mk_script(), "default": "ok"}]
+    if rng.random() < 0.7:
+        handlers.append({"kind": "resume", "id": "r0", "opts": {}, "script": ["ok"], "default": "ok"})
+    if rng.random() < 0.4:
+        handlers.append({"kind": "delete", "id": "d0", "opts": {"optional": rng.random() < 0.5}, "script": ["ok"], "default": "ok"})
+    if rng.random() < 0.2:
+        handlers.append({"kind": "field", "id": "f0", "opts": {"field": "spec.x"}, "script": ["ok"], "default": "ok"})
+    rng.shuffle(handlers)
+    mode = rng.choice(["roll-out", "roll-out", "listed", "listed", "created-while-down", "late-propagation", "adopted", "orphaned"])
+    tl: list[list] = []
+    objects: list[dict] = []
+    t = 1.0
+    if mode == "roll-out":
+        tl.append([t, "create", "a", body(True)])
+    elif mode == "listed":
+        objects.append({"name": "a", "body": body(True)})
+    elif mode == "created-while-down":
+        tl += [[t, rng.choice(["stop", "kill"])], [t + 0.5, "create", "a", body(True)], [t + 1.5, "start"]]
+        t += 1.5
+    elif mode == "late-propagation":
+        tl.append([t, "create", "a", body(False)])
+        t += rng.choice([0.25, 1.0, 4.0])
+        tl.append([t, "edit", "a", {"metadata": {"annotations": {foreign_name: foreign_text}}}])
+    elif mode == "adopted":
+        tl.append([t, "create", "a", body(rng.random() < 0.5, with_refs=False)])
+        t += rng.choice([0.25, 4.0])
+        tl.append([t, "edit", "a", {"metadata": {"ownerReferences": refs or [{"apiVersion": "apps/v1", "kind": "Deployment", "name": "o0", "uid": "ou0"}]}}])
+    else:   # orphaned
+        tl.append([t, "create", "a", body(True)])
+        t += rng.choice([0.25, 4.0])
+        tl.append([t, "edit", "a", {"metadata": {"ownerReferences": None}}])
+    t += rng.choice([3.0, 5.0])
+    tl.append([t, "edit", "a", {"spec": {"x": rng.choice([1, 3])}}])            # scaled: the one real update
+    if rng.random() < 0.4:
+        t += 2.0
+        tl += rng.choice([[[t, "compact"], [t, "break", "410"]], [[t, "break", "eof"]], [[t, "stop"], [t + 1.0, "start"]]])
+    if rng.random() < 0.3:
+        t += 3.0
+        tl.append([t, "delete", "a"])
+    sc = {"seed": i, "c05": "owned:" + mode, "lifecycle": rng.choice(["asap", "one_by_one", "all_at_once", None]),
+          "handlers": handlers, "timeline": sorted(tl, key=lambda e: e[0]),
+          "settings": {"execution.default_backoff": 1.0, "watching.reconnect_backoff": 0.5}, "end": t + 20.0}
+    if objects:
+        sc["objects"] = objects
+    return sc
+
+
 def gen_sub_delete(rng: Any, i: int) -> dict:
     """A deletion handler with two sub-handlers (the regression of /repo 345a874, repaired by 17e5c42: they were
     never selected, the parent finished at once and the object was released without their work), next to
@@ -1041,6 +1362,46 @@ def _body_clauses(ctx: Ctx, sc: dict, tr: dict) -> None:
                                 f"{meta.get('resourceVersion')}, marked={bool(meta.get('deletionTimestamp'))})",
                                 {"scenario": sc, "cycle": cyc["i"], "call": c},
                                 {"site": "process_resource_event", "shape": "handler body is not the event's"})
+
+
+def _record_clauses(ctx: Ctx, sc: dict, tr: dict) -> None:
+    """From the statement, over the state each invocation's event carries (default storage): a never-handled object
+    (no last-handled record of its own on it, not marked for deletion) gets its creation handlers and neither update
+    nor resume handlers; a creation handler never runs on an object that carries a record of its own. And, in the
+    histories made for it (`gen_owned`): an object that was there unhandled and stays gets its creation handler."""
+    kinds = {h["id"]: h["kind"] for h in sc["handlers"]}
+    for cyc in tr["cycles"]:
+        body = cyc.get("body") or {}
+        meta = body.get("metadata", {})
+        has_own = (meta.get("annotations") or {}).get(own_record_name(body)) is not None
+        for inv in cyc.get("invoked") or []:
+            k = kinds.get(inv.get("id"))
+            if k not in ("create", "update", "resume") or meta.get("deletionTimestamp"):
+                continue
+            ctx.count("closed_loop_record_calls", f"{k}:{'handled before' if has_own else 'never handled'}")
+            if (k == "create") == has_own:
+                ctx.oracle_fail(f"a{'n' if k == 'update' else ''} {k} handler ({inv['id']}) was invoked for an object that "
+                                + ("carries a last-handled record of its own" if has_own else
+                                   "was never handled (no last-handled record of its own under "
+                                   f"{own_record_name(body)}; other records on it: "
+                                   f"{sorted(a for a in (meta.get('annotations') or {}) if RECORD in a) or 'none'})"),
+                                {"scenario": sc, "cycle": cyc["i"], "handler": inv["id"]},
+                                {"site": "diffbase_storage.fetch", "shape": f"{k} handler for a "
+                                 f"{'handled' if has_own else 'never-handled'} object"})
+    if not str(sc.get("c05", "")).startswith("owned:") or any(e[1] == "delete" for e in sc["timeline"]):
+        return
+    create_ids = {h["id"] for h in sc["handlers"] if h["kind"] == "create"}
+    for name, versions in tr["history"].items():
+        first = (versions[0].get("body") or {}) if versions else {}
+        uid = first.get("metadata", {}).get("uid")
+        if "kopfexamples" not in name or uid is None or (first.get("metadata", {}).get("annotations") or {}).get(own_record_name(first)) is not None:
+            continue
+        ran = any(c["id"] in create_ids and c.get("uid") == uid for c in tr["calls"])
+        ctx.count("closed_loop_never_handled_object", "creation handler ran" if ran else "NO CREATION HANDLER")
+        if not ran:
+            ctx.oracle_fail(f"object {name} appeared without a last-handled record of its own and stayed, its creation "
+                            "handler never ran", {"scenario": sc, "object": name, "uid": uid},
+                            {"site": "diffbase_storage.fetch", "shape": "creation handler never ran for a never-handled object"})
 
 
 def _call_clauses(ctx: Ctx, sc: dict, tr: dict) -> None:
